@@ -98,6 +98,9 @@ func (g Generator) Generate(openapi3Spec *openapi3.Swagger, outDir string, packa
 		}
 		sort.Strings(variableNames)
 		for _, k := range variableNames {
+			if s.Variables[k] == nil {
+				continue
+			}
 			if def, ok := s.Variables[k].Default.(string); ok {
 				rawURL = strings.ReplaceAll(rawURL, "{"+k+"}", def)
 			}
